@@ -313,7 +313,10 @@ class LowerToIRVisitor(Visitor.DefaultVisitor):
         self.v_Visit(expr.GetBody(), ctx)
         breakContinueInstructions = ctx.EndLoop()
 
-        # Conditional jump back to start or to end
+        # Conditional jump back to start or to end. The condition lives in its
+        # own block, as ``continue`` must re-test it instead of restarting
+        # the body
+        condBB = ctx.CreateBasicBlock()
         condition = self.v_Visit(expr.GetCondition(), ctx)
         branch = LinearIR.BranchInstruction(startBB, None, condition)
         ctx.BasicBlock.AddInstruction(branch)
@@ -322,7 +325,7 @@ class LowerToIRVisitor(Visitor.DefaultVisitor):
         branch.SetFalseBlock(endBB)
 
         breakContinueInstructions.SetBreakTarget(endBB)
-        breakContinueInstructions.SetContinueTarget(startBB)
+        breakContinueInstructions.SetContinueTarget(condBB)
 
     def v_WhileStatement(self, expr: ast.WhileStatement, ctx: Context):
         # We lower this as following
